@@ -95,6 +95,7 @@ class Result(object):
         self.frames = []        # post-activation frames: parse() + dir, fate, n
         self.act_frames = []    # activation frames
         self.timed_out = False  # conversation did not end inside the limit
+        self.budget = False     # scheduler step budget exhausted (busy loop)
         self.deadlock = None
         self.t_final_call = False   # t_err / t_end belong to the call after
         #                             the last request was handed out
@@ -109,7 +110,7 @@ def timeouts(cfg):
     return {"rwt": rwt, "i": t_i, "t": 4 * t_i + 1.0, "listen": 4 * rwt + 3.0}
 
 
-def converse(cfg, reqs, ress, script, step_budget=400000):
+def converse(cfg, reqs, ress, script, step_budget=120000):
     """run one conversation.  cfg: brs lri lrt rwt did nad gbi gbt start seed
     release; reqs/ress: lists of bytes; script: {slot: "lose"|"corrupt"} over
     the frames that follow activation (slot 0 is the first DEP_REQ)."""
@@ -217,10 +218,15 @@ def converse(cfg, reqs, ress, script, step_budget=400000):
         s.spawn(initiator_main, "dep-i")
         limit = (len(reqs) + 2) * (tmo["t"] + tmo["i"]) * 4 + 60
         end = s.now + limit
-        with cv:
-            while not (out.i_done and out.t_done) and s.now < end:
-                if not cv.wait(end - s.now):
-                    break
+        try:
+            with cv:
+                while not (out.i_done and out.t_done) and s.now < end:
+                    if not cv.wait(end - s.now):
+                        break
+        except vsched.StepBudget:
+            # more scheduling points than any conversation needs: somebody
+            # loops without ever waiting for virtual time to pass
+            out.budget = True
         out.timed_out = not (out.i_done and out.t_done)
         out.deadlock = s.deadlock
         out.vtime = s.now
